@@ -26,6 +26,14 @@
 (*                         (b has its low W-l bits clear: canonical form)  *)
 (*     <<"mac", n, 0>>     a hardware address                              *)
 (*     <<"none",0, 0>>     "no ClientID in the request" / "no lease"       *)
+(* A request may also PRESENT as its ClientID a string that merely looks   *)
+(* like an identifier of another kind: <<"cidmac", n, 0>> is the ClientID  *)
+(* spelled like mac n with dashes (aa-bb-cc-dd-ee-ff is a legal host-name  *)
+(* label, hence a legal ClientID; "cidmacu" the same in upper case),       *)
+(* <<"cidip", n, 0>> the one spelled like address n with dashes            *)
+(* (192-168-7-80).  Nobody can own these as such; a ClientID string        *)
+(* matches ClientID identifiers only, so for Resolve they are ClientIDs    *)
+(* that nobody owns, whoever owns the mac / address they resemble.         *)
 (***************************************************************************)
 EXTENDS Naturals, FiniteSets, Sequences
 
